@@ -43,6 +43,8 @@ class BalWorld(object):
     self.keys = ['m%d:%d' % (i, 2000 + i) for i in range(self.n)]
     self.sent = set(self.cfg['initial'])      # membership as the scenario has announced it
     self.nodes = []
+    self._unclosed = []
+    self._sink_seen = 0
     self.last_active = None
     self.leave_since_settle = False
     self.had_down = False
@@ -271,6 +273,12 @@ class BalWorld(object):
     if self.op_in_progress():
       REC.probe('settle_skipped_operation_in_progress')
       return
+    # nodes that have left the heap, drained and been closed are finished: they
+    # are not looked at again (an aperture that flaps creates thousands)
+    if len(self.nodes) > 64:
+      self.nodes = [n for n in self.nodes
+                    if n.index >= 0 or self.outstanding(n.channel) != 0 or n.channel.close_calls == 0
+                    or (n.load != self.lb.Idle and n.load != 0)]
     self.check_loads('quiescent')
     for name, lvl, msg in REC.logs:
       if 'Decrementing load below Zero' in msg and not getattr(self, '_neg_reported', False):
@@ -300,9 +308,13 @@ class BalWorld(object):
     if drained:
       want = set(self.keys[i] for i in self.sent)
       # channels of endpoints that are not members any more: closed once idle
-      for sk in self.provider.sinks:
+      draining = set(id(n.channel) for n in self.nodes if n.index < 0)
+      self._unclosed = [sk for sk in self._unclosed if sk.close_calls == 0] + \
+          [sk for sk in self.provider.sinks[self._sink_seen:] if sk.close_calls == 0]
+      self._sink_seen = len(self.provider.sinks)
+      for sk in self._unclosed:
         if str(sk.endpoint) not in want and sk.close_calls == 0 and self.outstanding(sk) == 0 \
-            and not any(n.channel is sk for n in self.nodes if n.index < 0):
+            and id(sk) not in draining:
           REC.violation('C04', 'removed_member_not_closed',
                         'endpoint %s is not in the server set, its channel %r has nothing outstanding and was never closed' % (
                           sk.endpoint, sk), {'kind': self.kind, 'by_model': True})
